@@ -323,6 +323,22 @@ def frames_array(frames, k, wide=False):
 
 # provenance axis: the SAME values handed over as arrays a user may well hold - read from a big-endian source, Fortran-ordered,
 # every second element of a larger array, read-only. What is written must not depend on it.
+_USER_SUBCLASSES = {}
+
+
+def as_user_subclass(obj):
+    """the same object as an instance of a USER-DEFINED subclass of its library class (`class GaitMarkers(Data3D): pass` — what
+    applications do to attach their own helpers): it is a block / track / event of that kind in every respect"""
+    cls = type(obj)
+    if cls not in _USER_SUBCLASSES:
+        _USER_SUBCLASSES[cls] = type("My" + cls.__name__, (cls,), {"__doc__": "user-defined subclass", "describe": lambda self: "mine"})
+    try:
+        obj.__class__ = _USER_SUBCLASSES[cls]
+    except TypeError:
+        pass
+    return obj
+
+
 PROVENANCES = ["be", "fortran", "strided", "readonly"]
 PROV = [None]
 
